@@ -13,7 +13,7 @@ PROBE_PROPS = ("C11", "C14", "C15", "C18")     # plans whose statements quantify
 
 def mcx(tag, ring=1, asan=False, **kw):
     args = []
-    probe = kw.get("prop") in ("C11", "C14") or (kw.get("prop") in PROBE_PROPS and ring == 1 and (tag.startswith("duplex-r1-sh") or tag.startswith("hold-")))
+    probe = (kw.get("prop") in ("C11", "C14") and ring == 1) or (kw.get("prop") in PROBE_PROPS and ring == 1 and (tag.startswith("duplex-r1-sh") or tag.startswith("hold-")))
     if probe and (kw.get("refuse_write") or kw.get("refuse_read")) and "refusal_probe" not in kw:
         kw["refusal_probe"] = 1     # follow the all-refusing continuation wherever a refusal-only call changed parser state (engine/world.c refusal_run_probe)
     for k, v in kw.items():
@@ -76,6 +76,7 @@ def p_c01(tier):
     sh = c01_shards(tier)
     # response formatting with the capacity swept through every alignment (a value fits, the separator does not, ...): one result code per line
     sh += sw_shards("bounds", "C01", tier, 8, "--family", "format", tagp="format-align")
+    sh.append(failing_events("lines-failing-events", 1, "C01", "C01"))
     # the command list (several units, then the closing result code) while unsolicited events are triggered, flushed and refused around it
     sh += [s for s in c11_shards(tier, prop="C01", mon="C01") if s["tag"].endswith("-run")]
     return {"shards": sh, "require": ["lines_done", "ambiguous_eq", "ambiguous_lf", "overlong", "drain_err", "notfound", "lines_hold"],
@@ -93,7 +94,7 @@ PLANS["C01"] = p_c01
 ALLC_WU = "OK,ERROR,DATA_OK,DATA_NEXT,NEXT,HOLD,HEXIT_OK,HEXIT_ERR,LIST,-2,9"
 ALLC_RT = "OK,ERROR,DATA_OK,DATA_NEXT,NEXT,HOLD,LIST"
 ALLE = "OK,ERROR,DATA_OK,DATA_NEXT,NEXT,HEXIT_OK,HEXIT_ERR,LIST,-2,9"
-T_CODES = "+W:W;+V:W,vu1rw/w,vi1rw/w;+R:R,vu1rw/r,vu1ro/r;+N:R;+U:U;+T:T,vu1rw@x/r,vi1ro/r,D=dd;+M:T||+e:R,vu1ro/r,vi1rw;+f:T,vu1ro/r,vx1wo@y,D=ee;+g:R;+o:R,o"
+T_CODES = "+W:W;+V:W,vu1rw/w,vi1ro/w,vx2rw/w;+R:R,vu1rw/r,vu1ro/r;+N:R;+U:U;+T:T,vu1rw@x/r,vi1ro/r,D=dd;+M:T||+e:R,vu1ro/r,vi1rw;+f:T,vu1ro/r,vx1wo@y,D=ee;+g:R;+o:R,o"
 
 
 def c10_shards(tier, mon="C10", prop="C10"):
@@ -156,6 +157,18 @@ def duplex(tag, ring, shared, budget, prop, mon, extra=None, asan=False):
 T_DUPBIG = "+SSSSSSSSSSSS:R,vu1rw,vi1ro;+H:W,vu1rw,vu1rw,vu1rw;Z:U||+u:vu1ro,vu1ro;+h:R,o,vu1ro,vi1ro;+d"   # +h is only_test: that flag gates input requests, not events
 
 
+T_DUPTEST = "+SSSSSSSSSSSSSSSSSSSSSSSSSSSSSSSSSSSSSS:R,vu1rw;+H:W;Z:U||+t:T,vu1ro,vu1ro;+u:vu1ro,vu1ro"    # TEST text of +t is 26 bytes, the READ response of +S... 41
+
+
+def duplex_cursor_test(tag, ring, prop, mon, extra=None):
+    kw = dict(prop=prop, table=T_DUPTEST, cap=48, shared=0, ubuf=30, name_alpha="+SHZ", max_name=2, args_alpha="1", max_args=1, suffix_mask=7, lines=1,
+              refuse_read=1, refuse_write=1, codes_R="DATA_OK,HOLD", codes_W="OK,HOLD", codes_U="OK", ecodes_T="DATA_OK", max_inv=1,
+              ev="+t:T,+u:R", act="trigger,hold", trig_budget=2, mon=mon)
+    if extra:
+        kw.update(extra)
+    return mcx(tag, ring=ring, **kw)
+
+
 def duplex_cursor(tag, ring, prop, mon, budget=2, extra=None, asan=False):
     kw = dict(prop=prop, table=T_DUPBIG, cap=34, shared=0, ubuf=9, name_alpha="+SHZ", max_name=2, args_alpha="1,", max_args=5, suffix_mask=7, lines=1,
               refuse_read=1, refuse_write=1, codes_R="DATA_OK,OK", codes_W="OK,HOLD", codes_U="OK", ecodes_R="DATA_OK,OK", max_inv=1,
@@ -193,6 +206,20 @@ def same_cmd(tag, ring, prop, mon, extra=None):
 T_FULL = ";".join(["+CA:UR,vu1ro"] + ["+C%c:U" % (66 + i) for i in range(23)]) + "||+e:vu1ro"   # 24 registered commands = 4 x 6 (the event command is not registered)
 
 
+# Events that fail at every stage: nothing to print (+d), read text does not fit (+w), TEST description does not fit with (+v) and
+# without (+z) variables, variable read callback fails (+f): none of them may reach the command machine.
+T_FAIL = "+W:W,vu1rw;+U:U||+d;+w:vu1ro,vb12ro;+z:T,D=zzzzzzzzzzzzzzzzzzzz;+v:T,vu1ro,D=zzzzzzzzzzz;+f:vu1ro/r"
+EV_FAIL = "+d:R,+w:R,+z:T,+v:T,+f:R,+d:T"
+
+
+def failing_events(tag, ring, prop, mon, extra=None):
+    kw = dict(prop=prop, table=T_FAIL, cap=16, shared=ring - 1, name_alpha="+WU", max_name=2, args_alpha="1", max_args=2, suffix_mask=5, lines=2, crlf=0,
+              refuse_read=1, refuse_write=1, codes_W="OK,HOLD", codes_U="OK", ecodes_T="OK,DATA_OK", max_inv=1, varcb_fail=1, ev=EV_FAIL, act="trigger,hold", trig_budget=2, mon=mon)
+    if extra:
+        kw.update(extra)
+    return mcx(tag, ring=ring, **kw)
+
+
 def c11_shards(tier, prop="C11", mon="C11"):
     quick = tier == "quick"
     sh = []
@@ -206,8 +233,11 @@ def c11_shards(tier, prop="C11", mon="C11"):
     sh.append(duplex("duplex-r2-ubuf18", 2, 0, 2 if quick else 3, prop, mon, extra=dict(ubuf=18)))
     for ring in (1, 2):
         sh.append(duplex_cursor("duplex-cursor-r%d" % ring, ring, prop, mon, budget=2 if quick else 3))
+        sh.append(duplex_cursor_test("duplex-cursor-test-r%d" % ring, ring, prop, mon))
         sh.append(duplex_overlong("duplex-overlong-r%d" % ring, ring, ring % 2 + 1, prop, mon))
         sh.append(same_cmd("duplex-samecmd-r%d" % ring, ring, prop, mon))
+    for ring in (1, 2):
+        sh.append(failing_events("duplex-failing-events-r%d" % ring, ring, prop, mon))
     # the match table fills the command half completely (24 commands, half capacity 6): the byte after it is the first byte of the event half
     sh.append(mcx("duplex-fulltable-even", ring=1, prop=prop, table=T_FULL, cap=6, shared=1, name_alpha="+CA", max_name=3, args_alpha="1", max_args=1, suffix_mask=3, lines=2, crlf=0,
                   refuse_read=1, refuse_write=1, codes_U="OK", codes_R="DATA_OK", max_inv=1, ev="+e:R", act="trigger", trig_budget=2, mon=mon))
@@ -302,6 +332,8 @@ def c13_shards(tier, prop="C13", mon="C13"):
     for ring in (1, 2):
         sh.append(duplex_cursor("queue-cursor-r%d" % ring, ring, prop, mon, budget=2, extra=dict(act="trigger,hold,queries")))
         sh.append(same_cmd("queue-samecmd-r%d" % ring, ring, prop, mon, extra=dict(act="trigger,queries")))
+        if prop == "C13":
+            sh.append(same_cmd("queue-samecmd-live-r%d" % ring, ring, prop, mon + ",C15", extra=dict(act="trigger", liveness=1)))
     if not quick:
         # larger capacities with command traffic: fixpoints at 4 and 5 (the space triples per slot), capacity 8 bounded by one line and nine triggers (enough to fill and overflow the ring)
         for ring in (4, 5):
@@ -338,6 +370,7 @@ def c14_shards(tier, prop="C14", mon="C14"):
     for rw in NO_VALUES:
         sh.append(mcx("hold-U-refuse%d" % rw, ring=1, prop=prop, table=T_HOLD, cap=16, shared=0, name_alpha="+U", max_name=2, args_alpha="1", max_args=1,
                       suffix_mask=1, lines=2, refuse_read=1, refuse_write=rw, codes_U="HOLD,OK", ecodes_R="OK,HEXIT_ERR", max_inv=1, tok=1, ev="+e:R,+x:R", act="trigger,hold", trig_budget=1, mon=mon))
+    sh.append(failing_events("hold-failing-events", 1, prop, mon))
     # hold entered on a later invocation of a read / test handler (after DATA_NEXT or NEXT), then released
     for nm, alpha, sm in (("R", "+R", 2), ("T", "+T", 8)):
         sh.append(mcx("hold-%s-late" % nm, ring=1, prop=prop, table=T_HOLD, cap=16, shared=0, name_alpha=alpha, max_name=2, args_alpha="1", max_args=1,
@@ -399,6 +432,10 @@ def c16_shards(tier):
             sh.append(duplex("mutex-%s-r%d" % (nm, ring), ring, ring - 1, 2 if quick else 3, "C16", "C16",
                              extra=dict(mutex=1, faults=1, h_trigger=0, act="trigger,hold,queries", suffix_mask=sm, ev="+u:R,+h:R,+t:T,+d:R,+w:R", crlf=0, max_name=2,
                                         ecodes_R="OK,DATA_OK,DATA_NEXT,HEXIT_OK,HEXIT_ERR", ecodes_T="OK,DATA_OK,HEXIT_OK,HEXIT_ERR", codes_T="OK,DATA_OK", codes_R="OK,DATA_OK,DATA_NEXT")))
+    # a second parser object with a mutex of its own: handlers of the first raise events on it (its lock is taken and released once, whoever calls)
+    sh.append(duplex("mutex-run-r1-2obj", 1, 0, 1, "C16", "C16",
+                     extra=dict(mutex=1, faults=1, h_trigger=0, act="trigger,hold", suffix_mask=3, ev="+u:R,+h:R", crlf=0, max_name=2, interfere=2,
+                                ecodes_R="OK,DATA_OK", ecodes_T="OK", codes_T="OK", codes_R="OK,DATA_OK")))
     # lock()/unlock() failing with -1, 256, 65536, INT_MIN, 2 instead of 1 (any non-zero value is a failure)
     for fv in FAIL_VALUES:
       sh.append(duplex("mutex-run-r1-fail%d" % fv, 1, 0, 2, "C16", "C16",
@@ -492,6 +529,9 @@ def c09_shards(tier):
         sh.append(mcx("gating-%s" % nm, prop="C09", table=T_GATE, cap=8, name_alpha="+ABCDOL", max_name=4, args_alpha="1", max_args=1, suffix_mask=sm,
                       D=0, lines=0, lower=0, refuse_read=0, refuse_write=0, codes_W="OK", codes_R="OK,DATA_OK", codes_U="OK,LIST", codes_T="OK", max_inv=1,
                       act="flags", flag_budget=3 if quick else 0, mon="C09"))
+    for ring in (1, 2):
+        sh.append(duplex_overlong("write-with-events-on-disabled-r%d" % ring, ring, ring - 1, "C09", "C09",
+                                  extra=dict(table="+W:W;+V:W,vu1rw/w,vi1rw/w,vu1rw/w||+u:d,vu1rw/w,vu1rw/w", cap=12, max_args=6, lines=1, act="trigger", trig_budget=2, ev="+u:R,+u:T")))
     # descriptor sweeps with disable subsets and disabled groups, alone and with a second parser object serviced in between
     sh += sw_shards("tables", "C09", tier, 8, "--family", "small", "--maxk", 2 if quick else 3, "--interfere", 1, tagp="tables-2obj")
     sh += sw_shards("tables", "C09", tier, 8, "--family", "small", "--maxk", 2 if quick else 3, "--interfere", 2, tagp="tables-2objline")
@@ -538,6 +578,10 @@ def p_c02(tier):
         sh.append(mcx("search-with-events-r%d" % ring, ring=ring, prop="C02", table="+AB:U;+CD:UR,vu1rw;+EF:UW;+EG:U;Z:U||+t:T,vu1ro,D=d;+n:T,D=n", cap=12, shared=ring - 1, name_alpha="+ACEBFZ", max_name=3,
                       args_alpha="1", max_args=1, suffix_mask=7, lines=1, refuse_read=1, refuse_write=1, codes_U="OK", codes_R="DATA_OK", codes_W="OK", ecodes_T="DATA_OK", max_inv=1,
                       ev="+t:T,+t:R,+n:T", act="trigger", trig_budget=2, mon="C02"))
+    # sequences of lines on one object: what an earlier search left behind must not change the resolution of the next name
+    for tn, t, alpha in (("hist", T_HIST, "+SRUA"), ("ambig", T_AMBIG, "+TABZ"), ("impl", T_IMPL, "+DOX")):
+        sh.append(mcx("search-history-%s" % tn, prop="C02", table=t, cap=8, shared=0, name_alpha=alpha, max_name=3, args_alpha="1", max_args=1, suffix_mask=15, lines=3, refuse_read=0, refuse_write=0,
+                      codes_U="OK", codes_R="DATA_OK", codes_W="OK", codes_T="OK", max_inv=1, mon="C02"))
     # cat_init called again at any point of a line (also in the middle of the name search), then further lines
     for tn, t, alpha in (("impl", T_IMPL, "+DOX"), ("ambig", T_AMBIG, "+TABZ")):
         sh.append(mcx("search-with-reinit-%s" % tn, prop="C02", table=t, cap=8, shared=1, name_alpha=alpha, max_name=3, args_alpha="1", max_args=1, suffix_mask=15, lines=2, refuse_read=1, refuse_write=0,
@@ -563,6 +607,7 @@ def p_c04(tier):
         sh.append(duplex_overlong("write-with-failing-events-r%d" % ring, ring, ring % 2 + 1, "C04", "C04", extra=dict(cap=12, max_args=6, lines=1, act="trigger", trig_budget=2, ev="+d:R,+f:R,+s:R", varcb_fail=1, h_trigger=0)))
     # digit counts at and around 2^8, 2^9, 2^16 and 2^17 (counters narrower than the buffer capacity)
     sh += sw_shards("numeric", "C04", tier, 12, "--family", "huge", tagp="huge")
+    sh += sw_shards("numeric", "C04", tier, 4, "--family", "bytes", tagp="bytes")
     # implicit-write command with numeric variables: the argument text is everything after the name ('=' included)
     sh += sw_shards("numeric", "C04", tier, 12, "--family", "implicit", "--maxlen", 4 if quick else 5, tagp="implicit")
     return {"shards": sh, "require": ["runs", "wvar_ok", "wvar_err"],
@@ -585,6 +630,9 @@ def p_c05(tier):
                       args_alpha="A1,\"", max_args=6, suffix_mask=4, lines=1, refuse_read=1, refuse_write=1, codes_W="OK", max_inv=1, ev="+u:R", act="trigger", trig_budget=2, mon="C05"))
         sh.append(mcx("bufwrite-with-failing-events-r%d" % ring, ring=ring, prop="C05", table="+V:W,vb1rw,vs3rw,vb2rw||+d;+f:vu1ro/r", cap=16, shared=ring % 2 + 1, name_alpha="+V", max_name=2,
                       args_alpha="A1,\"", max_args=5, suffix_mask=4, lines=1, refuse_read=1, refuse_write=0, codes_W="OK", max_inv=1, ev="+d:R,+f:R", varcb_fail=1, act="trigger", trig_budget=2, mon="C05"))
+    for cap, shared in ((9, 2), (6, 2), (7, 1)):
+        sh.append(mcx("bufwrite-with-events-cap%d-sh%d" % (cap, shared), ring=1, prop="C05", table="+V:W,vb4rw,vs4rw||+u:vu1ro,vu1ro", cap=cap, shared=shared, name_alpha="+V", max_name=2,
+                      args_alpha="A,\"" if cap > 7 else "A1,\"", max_args=cap, suffix_mask=4, lines=1, refuse_read=1, refuse_write=0, codes_W="OK", max_inv=1, ev="+u:R,+u:T", act="trigger", trig_budget=1, mon="C05"))
     return {"shards": sh, "require": ["runs", "wvar_ok", "wvar_err", "units_evt"],
             "technique": "exhaustive enumeration of argument texts on the real parser against a reference decoder; canaries after every variable; plus explicit-state exploration of buffer WRITEs interleaved with unsolicited events",
             "bounds": "hex buffers and strings, data_size 1..8,16,63,64, access RW/RO/WO, argument positions 1..3: k legal units (k=0..data_size+1, plain/escaped mixes) followed by every byte 1..255 "
@@ -600,6 +648,7 @@ def p_c06(tier):
     sh += [s for s in c10_shards("quick", mon="C06", prop="C06") if "cmd-R" in s["tag"] or "cmd-T" in s["tag"] or "evt" in s["tag"]]
     # every command shape (handler subsets x flags x variable profiles, also '.var set, var_num 0') with every request form: '?' after '=' reaches the write handler verbatim unless a TEST form exists
     sh += sw_shards("describe", "C06", tier, 4, "--family", "shapes", "--pairs", 0, tagp="shapes")
+    sh += sw_shards("tables", "C06", tier, 8, "--family", "small", "--maxk", 2 if tier == "quick" else 3, tagp="tables")
     for ring in (1, 2):
         sh.append(duplex_overlong("args-with-string-event-r%d" % ring, ring, ring - 1, "C06", "C06", extra=dict(cap=10, max_args=6, lines=2, ev="+s:R,+u:R", codes_W="OK,NEXT", h_trigger=1)))
     return {"shards": sh, "require": ["runs", "overlong", "lines_ok"],
@@ -617,6 +666,8 @@ def p_c07(tier):
     sh = sw_shards("roundtrip", "C07", tier, 32, "--family", "numeric")
     sh += sw_shards("roundtrip", "C07", tier, 8, "--family", "buffers")
     sh += sw_shards("roundtrip", "C07", tier, 8, "--family", "mixes")
+    for mode in (1, 2):
+        sh += sw_shards("roundtrip", "C07", tier, 8, "--family", "mixes", "--interfere", mode, tagp="mixes-2obj%d" % mode)
     # formatted READ responses (command and event) and WRITE argument lists while the other machine works, odd-sized shared buffer included
     sh.append(duplex("duplex-r1-oddshared", 1, 2, 2, "C07", "C07"))
     sh.append(duplex("duplex-r2-shared", 2, 1, 2, "C07", "C07"))
@@ -640,6 +691,8 @@ def p_c08(tier):
     sh = sw_shards("access", "C08", tier, 16)
     sh += sw_shards("numeric", "C08", tier, 16, "--family", "bounds")
     sh += sw_shards("buffers", "C08", tier, 32)
+    # variable write callbacks that fail (read-only variable between two writable ones): nothing read-only may change, with any result value
+    sh += [s for s in c10_shards(tier, mon="C08", prop="C08") if "cmd-W" in s["tag"]]
     # the same with a second, unrelated parser object (writable string variable) serviced between all calls
     sh += sw_shards("access", "C08", tier, 8, "--interfere", 1, tagp="access-2obj")
     sh += sw_shards("access", "C08", tier, 8, "--interfere", 2, tagp="access-2objline")
@@ -666,7 +719,7 @@ def p_c19(tier):
     # TEST text regenerated after NEXT / DATA_NEXT of a test handler (both machines, commands with two variables)
     sh += [s for s in c10_shards(tier, mon="C19", prop="C19") if "cmd-T" in s["tag"] or "evt" in s["tag"]]
     # the command list while unsolicited events are triggered, flushed and refused around it
-    sh += [s for s in c11_shards(tier, prop="C19", mon="C19") if s["tag"].endswith("-run")]
+    sh += [s for s in c11_shards(tier, prop="C19", mon="C19") if s["tag"].endswith("-run") or "cursor-test" in s["tag"]]
     return {"shards": sh, "require": ["runs", "test_forms", "list_lines"],
             "technique": "exhaustive enumeration of descriptors on the real parser: TEST text and command list built from the descriptor by the reference; every request form of every listed command submitted",
             "bounds": "variable lists of length 0..3 over 15 type/width x 3 access x named/unnamed (%s), description and test handler on/off, both machines, exact-fit and one-short capacity; "
@@ -740,6 +793,8 @@ def p_c17(tier):
         for i in range(4):
             sh.append(thr(2, 3, 2, 0, 2, i, 4))
             sh.append(thr(1, 3, 2, 3, 2, i, 4))
+        for ring in (1, 2):
+            sh.append(thr(ring, 2, 3, 2, 2, variant=2))
         # hold entered by the read handler of a command that is also raised as an unsolicited READ event by a producer
         for ring in (1, 2):
             for opset in (0, 1):
@@ -755,6 +810,7 @@ def p_c17(tier):
         for ring in (1, 2, 3):
             for opset in (0, 1, 2, 3):
                 sh.append(thr(ring, 2, 4, opset, 3, variant=1))
+                sh.append(thr(ring, 2, 4, opset, 3, variant=2))
         # auxiliary, not deciding: the same bodies free-running under ThreadSanitizer (sampling)
         for ring in (1, 2, 8):
             for prod in (2, 3, 4):
